@@ -92,9 +92,8 @@ theorem C09_cleanup_quiescent {cfg : Cfg} {ctr : Int} {s : State} (hr : Reachabl
     obtain ⟨c, h0, _, _, h3⟩ := hI.tbl e (by rw [ht]; exact List.mem_cons_self)
     rcases hq c (List.mem_of_getElem? h0) with h | ⟨o, h⟩ <;> simp [h, Pc.registered] at h3
 
-example : ∃ s, run C08.demoCfg (init C08.demoCfg 0) C08.demoActs = some s ∧
-    ∀ c ∈ s.calls, c.pc = .idle ∨ ∃ o, c.pc = .done o := by
-  refine ⟨_, rfl, ?_⟩
+example : (run C08.demoCfg (init C08.demoCfg 0) C08.demoActs).map
+    (fun s => s.calls.all (fun c => match c.pc with | .idle | .done _ => true | _ => false)) = some true := by
   decide
 
 /-- **C09_late_reply.** Whatever arrives and whenever: the arrival of a packet, its decoding, the table
@@ -270,93 +269,55 @@ theorem C09_bound_vs_property : ¬ C09_full_bound := by
     simp [hlen'] at htm
     omega
 
-/-- **Unbounded without a write timeout.**  With `WriteTimeout = 0` a call that finds the send queue
-    full (and a peer that never reads) never returns: for every time T there is a run in which the
-    clock has reached T and the call still sits in `TarsClient.Send`. -/
+/-- queue capacity 1, WriteTimeout 0 (no timer in `TarsClient.Send`) -/
 def zeroCfg : Cfg := ⟨1, 100, 1, 0, 2, 1⟩
 
+/-- call 0 fills the send queue, times out and returns; call 1 reaches the select of
+    `TarsClient.Send` with the queue full -/
 def zeroPrefix : List TAction :=
   [.act (.spawn par0), .act (.spawn par0)] ++ upToLock 0 ++ [.act (.call 0 .dialOk), .act (.call 0 .enqueue)] ++
   upToLock 1 ++ [.tick, .act (.call 0 .timeout)] ++ finish 0
 
+/-- the state reached by `zeroPrefix`, at time `k` -/
+def stuck (k : Nat) : TState :=
+  { base := { gen := ⟨2, [2, 1]⟩,
+              calls := [⟨par0, .done .timeout, 1, 0, 0⟩, ⟨par0, .enq, 2, 1, 0⟩],
+              table := [⟨0, 2, 1⟩], queueLen := 1, invokeNum := 1,
+              conns := [⟨false, false, [1]⟩], rcvs := [], emitted := [] },
+    now := k, times := [⟨0, 1, 0, 0, false, 1⟩, ⟨0, 1, 0, 0, true, 0⟩] }
+
+/-- **Unbounded without a write timeout.**  With `WriteTimeout = 0` a call that finds the send queue
+    full (and a peer that never reads) never returns: for every time T there is a run in which the
+    clock has reached T and the call still sits in `TarsClient.Send`. -/
 theorem C09_unbounded_without_write_timeout (T : Nat) :
     ∃ (as : List TAction) (ts : TState) (c : Call), trun zeroCfg (tinit zeroCfg 0) as = some ts ∧ T ≤ ts.now ∧
       ts.base.calls[1]? = some c ∧ c.pc = .enq := by
-  -- the state after the prefix, and what a tick does to it
-  cases h0 : trun zeroCfg (tinit zeroCfg 0) zeroPrefix with
-  | none => exact absurd h0 (by decide)
-  | some ts0 =>
-    have hb : ts0 = ⟨ts0.base, 1, ts0.times⟩ ∧ ts0.base.calls.map (·.pc) = [.done .timeout, .enq] ∧
-        ts0.times.length = 2 ∧ ts0.base.conns = [⟨false, false, [1]⟩] := by
-      have : (trun zeroCfg (tinit zeroCfg 0) zeroPrefix).map
-          (fun ts => (ts.now, ts.base.calls.map (·.pc), ts.times.length, ts.base.conns)) =
-          some (1, [.done .timeout, .enq], 2, [⟨false, false, [1]⟩]) := by decide
-      rw [h0] at this
-      simp only [Option.map_some, Option.some.injEq, Prod.mk.injEq] at this
-      obtain ⟨h1, h2, h3, h4⟩ := this
-      exact ⟨by cases ts0; simp_all, h2, h3, h4⟩
-    obtain ⟨_, hpcs, hlen, hconns⟩ := hb
-    have hn0 : ts0.now = 1 := by
-      have : (trun zeroCfg (tinit zeroCfg 0) zeroPrefix).map (·.now) = some 1 := by decide
-      rw [h0] at this; simpa using this
-    -- n ticks from any state with these calls / connections
-    have ticks : ∀ (n : Nat) (ts : TState), ts.base = ts0.base → ts.times.length = 2 →
-        ∃ ts', trun zeroCfg ts (List.replicate n .tick) = some ts' ∧ ts'.base = ts0.base ∧ ts'.now = ts.now + n := by
-      intro n
-      induction n with
-      | zero => intro ts hb hl; exact ⟨ts, rfl, hb, rfl⟩
-      | succ n ih =>
-        intro ts hb hl
-        have hct : canTick zeroCfg ts = true := by
-          unfold canTick
-          rw [List.all_eq_true]
-          intro ct hm
-          obtain ⟨k, hk⟩ := List.mem_iff_getElem?.mp hm
-          obtain ⟨hc, _⟩ := List.getElem?_zip_eq_some.mp hk
-          rw [hb] at hc
-          have hpc : ct.1.pc = .done .timeout ∨ (ct.1.pc = .enq ∧ ct.1.adp = 0) := by
-            have hall : (trun zeroCfg (tinit zeroCfg 0) zeroPrefix).map
-                (fun ts => ts.base.calls.map (fun c => (c.pc, c.adp))) = some [(.done .timeout, 0), (.enq, 0)] := by decide
-            rw [h0] at hall
-            simp only [Option.map_some, Option.some.injEq] at hall
-            have := List.mem_map_of_mem (f := fun c : Call => (c.pc, c.adp)) (List.mem_of_getElem? hc)
-            rw [hall] at this
-            simp at this
-            rcases this with ⟨h1, _⟩ | ⟨h1, h2⟩
-            · exact Or.inl h1
-            · exact Or.inr ⟨h1, h2⟩
-          rcases hpc with h | ⟨h, ha⟩
-          · simp [tickOk, h]
-          · simp [tickOk, h, queueFull, hb, hconns, ha, zeroCfg]
-        have hstep : tstep zeroCfg ts .tick = some { ts with now := ts.now + 1, times := stampTick ts.base.calls ts.times } := by
-          simp [tstep, hct]
-        obtain ⟨ts', h1, h2, h3⟩ := ih { ts with now := ts.now + 1, times := stampTick ts.base.calls ts.times } hb
-          (by
-            have : ts.base.calls.length = 2 := by
-              rw [hb]; have := congrArg List.length hpcs; simpa using this
-            simp [stampTick, List.length_zipWith, hl, this])
-        refine ⟨ts', ?_, h2, by simp at h3; omega⟩
-        simp only [List.replicate_succ, trun, hstep]
-        exact h1
-    obtain ⟨ts', h1, h2, h3⟩ := ticks T ts0 rfl hlen
-    have hrun : ∀ (a b : List TAction) (x y z : TState), trun zeroCfg x a = some y → trun zeroCfg y b = some z →
-        trun zeroCfg x (a ++ b) = some z := by
-      intro a
-      induction a with
-      | nil => intro b x y z h h'; simp only [trun] at h; injection h with h; subst h; exact h'
-      | cons q qs ih =>
-        intro b x y z h h'
-        simp only [List.cons_append, trun] at *
-        split at h
-        · next w hw => first | exact ih b w y z h h' | (rw [hw]; exact ih b w y z h h')
-        · contradiction
-    have hc1 : ∃ c, ts0.base.calls[1]? = some c ∧ c.pc = .enq := by
-      have hl2 : ts0.base.calls.length = 2 := by
-        have := congrArg List.length hpcs; simpa using this
-      refine ⟨ts0.base.calls[1]'(by omega), by simp [hl2], ?_⟩
-      have := congrArg (fun l => l[1]?) hpcs
-      simpa [hl2] using this
-    obtain ⟨c, hc, hpc⟩ := hc1
-    exact ⟨zeroPrefix ++ List.replicate T .tick, ts', c, hrun _ _ _ _ _ h0 h1, by omega, by rw [h2]; exact hc, hpc⟩
+  have h0 : trun zeroCfg (tinit zeroCfg 0) zeroPrefix = some (stuck 1) := by decide
+  have htick : ∀ k, tstep zeroCfg (stuck k) .tick = some (stuck (k + 1)) := by
+    intro k
+    simp [tstep, canTick, stuck, tickOk, queueFull, zeroCfg, stampTick]
+  have hticks : ∀ n k, trun zeroCfg (stuck k) (List.replicate n .tick) = some (stuck (k + n)) := by
+    intro n
+    induction n with
+    | zero => intro k; rfl
+    | succ n ih =>
+      intro k
+      simp only [List.replicate_succ, trun, htick]
+      rw [ih (k + 1)]
+      congr 2
+      omega
+  have hrun : ∀ (a b : List TAction) (x y z : TState), trun zeroCfg x a = some y → trun zeroCfg y b = some z →
+      trun zeroCfg x (a ++ b) = some z := by
+    intro a
+    induction a with
+    | nil => intro b x y z h h'; simp only [trun] at h; injection h with h; subst h; exact h'
+    | cons q qs ih =>
+      intro b x y z h h'
+      simp only [List.cons_append, trun] at *
+      split at h
+      · next w hw => first | exact ih b w y z h h' | (rw [hw]; exact ih b w y z h h')
+      · contradiction
+  exact ⟨zeroPrefix ++ List.replicate T .tick, stuck (1 + T), ⟨par0, .enq, 2, 1, 0⟩,
+    hrun _ _ _ _ _ h0 (hticks T 1), by simp [stuck], rfl, rfl⟩
 
 end Tars.C09
